@@ -328,3 +328,30 @@ package fun
 //@   ensures refused: !result ==> old(atomicval(counter)) >= in && atomicval(counter) == old(atomicval(counter))
 //@   ensures atomicval(counter) <= in
 //@   loop 1 invariant 0 <= atomicval(counter) && atomicval(counter) <= in
+
+// ---------------------------------------------------------------------------
+// Iterators and sequential pipelines (C02). A Producer is an unknown function
+// value; its ghost call history is its stream: callret0/callret1(p, k) are the
+// value and error of its k-th call and calls(p) is the cursor. Every operator
+// is proved against a step contract over that stream.
+// ---------------------------------------------------------------------------
+
+//@ pred iclosed(i *Iterator) = atomicbool(i.closer.state)
+
+// ReadOne: a closed iterator yields io.EOF without consuming input. Otherwise
+// it consumes the input stream up to the first element that is not a skip;
+// skipped elements are exactly those whose error is ErrIteratorSkip; a value is
+// returned unchanged; a terminating error is returned as is, any other error is
+// handed to the error handler (exactly once) and reported as io.EOF; after an
+// error from the stream the iterator is closed (yields nothing further).
+//@ func (*Iterator).ReadOne
+//@   props C02
+//@   option noframe
+//@   option atomics-sequential
+//@   requires i != nil && ctx != nil && i.err.handler != nil && (oncedone(i.closer.once) ==> iclosed(i))
+//@   ensures oncedone(i.closer.once) ==> iclosed(i)
+//@   ensures closed: old(i.operation == nil || iclosed(i)) ==> result1 == io_EOF && calls(i.operation) == old(calls(i.operation))
+//@   ensures value: result1 == nil ==> calls(i.operation) > old(calls(i.operation)) && result0 == callret0(i.operation, calls(i.operation) - 1) && callret1(i.operation, calls(i.operation) - 1) == nil
+//@   ensures skipped: forall k: int :: old(calls(i.operation)) <= k && k < calls(i.operation) - 1 ==> errIs(callret1(i.operation, k), ErrIteratorSkip)
+//@   ensures sticky: result1 != nil && calls(i.operation) > old(calls(i.operation)) ==> iclosed(i) && callret1(i.operation, calls(i.operation) - 1) != nil && !errIs(callret1(i.operation, calls(i.operation) - 1), ErrIteratorSkip)
+//@   loop 1 invariant i != nil && i.operation != nil && !iclosed(i) && !oncedone(i.closer.once) && calls(i.operation) >= old(calls(i.operation)) && (forall k: int :: old(calls(i.operation)) <= k && k < calls(i.operation) ==> errIs(callret1(i.operation, k), ErrIteratorSkip))
